@@ -339,6 +339,32 @@ def a9(F, rep):
     rep.floor("A9", "recorded-stream-chunks", n, 4)
 
 
+def a11(F, rep):
+    """The container reader accepts everything the writer can write: beyond I/O errors and errors of the reconstruction it
+    propagates, it refuses exactly an unknown version byte and an unknown chunk tag.  A plausibility check on a decoded length
+    ("corrections are never longer than the text") rejects containers expand has produced."""
+    n = 0
+    for fn, allowed in ((PC + "recreated_zlib_chunks", 1), (PC + "read_chunk_block", 1)):
+        b = F.body(fn)
+        own = []
+        for bb in sorted(b.normal_blocks()):
+            for s in b.stmts(bb):
+                r = s.get("r") or {}
+                if s.get("k") == "assign" and s["p"]["l"] == 0 and not s["p"]["p"] and r.get("k") == "agg" and r.get("adt") == "std::result::Result" and r.get("vname") == "Err":
+                    own.append(b.where(bb))
+            t = b.term(bb)
+            if t["k"] == "call" and t.get("dest") and t["dest"]["l"] == 0 and not t["dest"]["p"]:
+                from .. import err
+                c = t["callee"]
+                lc = c.get("resolved") if c.get("rlocal") else (c.get("def") if c.get("local") else None)
+                if lc and err.always_err(F, lc):
+                    own.append(b.where(bb))
+        n += len(own)
+        rep.add("A11", "reader-refuses-only-version-and-tag:%s" % fn.split("::")[-1], len(own) <= allowed, "%s:%s" % (b.file, b.line),
+                "errors constructed by the function itself: %s (expected at most %d: %s)" % (own, allowed, "bad version byte" if "recreated" in fn else "unknown chunk tag"))
+    rep.floor("A11", "own-error-sites", n, 2)
+
+
 def a2(F, rep):
     names = ["LITERAL_CHUNK", "DEFLATE_STREAM", "PNG_COMPRESSED"]
     vals = {}
@@ -405,6 +431,7 @@ def run(ctx, rep):
     a1t(F, rep, res)
     a8(F, rep)
     a9(F, rep)
+    a11(F, rep)
     from . import c02
     c02.m8(F, rep, "A10")        # recreate cannot answer Ok for a stored stream without reconstructing it
     a2(F, rep)
